@@ -1,3 +1,195 @@
-/-! # C01 — (stub: property theorems go here; see docs/BUILDING.md) -/
+import PtVerif.Proofs.GrammarYield
+import PtVerif.Proofs.GrammarDefined
+import PtVerif.Proofs.GrammarDen
+import PtVerif.Proofs.GrammarBalanced
+import PtVerif.Model.GrammarTable
+/-!
+# C01 — a formula string denotes exactly the composition its documented grammar says;
+malformed strings are rejected
+
+Model: `Model/Grammar.lean` (`parse`: the pyparsing grammar of `formula_grammar`, combinator for
+combinator, table as a parameter) – tied to formulas.py on every run by
+`harness/ptv/props/C01.py`.  Specification: `Model/GrammarSpec.lean` (derivations of the documented
+grammar, their yield `text`, the structure `items` they denote, the documented reading `den`, and
+`canon`, the side conditions that pick the greedy reading where the documented grammar is
+ambiguous).
+
+All theorems hold for every table (public or private) and every nesting depth.
+-/
 namespace PtVerif.C01
+open PtModel PtModel.Grammar
+
+/-- **every string of the documented grammar parses to what it denotes**: for every table, every
+    canonical derivation (elements with isotope / ion tags and integer or decimal counts, implicit
+    and parenthesised groups nested to any depth, `+` / blank / empty separators, blanks wherever
+    the implementation tolerates them, an optional density tag) whose elements the table defines:
+    the parser returns exactly the nested structure and density tag the derivation denotes. -/
+theorem parse_yield (T : Table) (D : Compound) (hc : D.canon = true) (r : Items Cnt × Option Dens)
+    (hr : D.result T = some r) : parse T D.text = .ok r := by
+  rw [Grammar.parse_yield T D hc, hr]
+
+/-- **a string that names a symbol, isotope or charge the table does not define is rejected**
+    (the parse action's exception; never a formula), wherever in the derivation it occurs -/
+theorem undefined_rejected (T : Table) (D : Compound) (hc : D.canon = true) (hr : D.result T = none) :
+    parse T D.text = .error .abort := by
+  rw [Grammar.parse_yield T D hc, hr]
+
+/-- the canonical reading is unambiguous: two canonical derivations with the same text denote the
+    same structure and density (or are both undefined) -/
+theorem canonical_reading_unique (T : Table) (D₁ D₂ : Compound) (h₁ : D₁.canon = true)
+    (h₂ : D₂.canon = true) (ht : D₁.text = D₂.text) : D₁.result T = D₂.result T := by
+  have e₁ := Grammar.parse_yield T D₁ h₁
+  have e₂ := Grammar.parse_yield T D₂ h₂
+  rw [ht, e₂] at e₁
+  cases r₁ : D₁.result T <;> cases r₂ : D₂.result T <;> simp_all
+
+/-- the structure a derivation denotes has the composition the grammar documents: *a count
+    multiplies everything in its group and repeated atoms add* (`den`), atom by atom … -/
+theorem yield_denotes (T : Table) (d : Comp) (fs : Items Cnt) (h : d.items T = some fs) (a : Atom) :
+    (ratItems fs).cnt a = d.den T a := comp_den T a d fs h
+
+/-- … and that is what `Formula.atoms` serves for it (C02's `_count_atoms`) -/
+theorem yield_atoms (T : Table) (d : Comp) (fs : Items Cnt) (h : d.items T = some fs) (a : Atom) :
+    lookupD (ratItems fs).atoms a = d.den T a := by
+  rw [Items.atoms_lookup, yield_denotes T d fs h a]
+
+/-- **every atom of an accepted formula is defined in the table**: for every table and *every*
+    string, if the parser returns a formula then each of its atoms, at every depth, is an entry of
+    the table with a mass number the entry names or lists and a charge it lists -/
+theorem parse_atoms_defined (T : Table) (s : List Char) (fs : Items Cnt) (d : Option Dens)
+    (h : parse T s = .ok (fs, d)) : AllAtoms (Defined T) fs := parse_defined T s fs d h
+
+/-- **every accepted string is a string of the documented grammar, with that meaning**: for every
+    table and *every* string, if the parser returns a formula then the string is the yield of a
+    derivation (well-formed tokens; blanks only where the implementation tolerates them) that
+    denotes exactly that structure and density tag – with every element defined in the table.
+    Nothing outside the (whitespace-tolerant) documented language is ever accepted. -/
+theorem parse_sound (T : Table) (s : List Char) (fs : Items Cnt) (d : Option Dens)
+    (h : parse T s = .ok (fs, d)) :
+    ∃ D : Compound, D.wf = true ∧ D.text = s ∧ D.result T = some (fs, d) :=
+  Grammar.parse_sound T s fs d h
+
+/-- **unbalanced brackets are rejected**: in an accepted string each of `( )`, `[ ]`, `{ }` opens
+    as often as it closes -/
+theorem unbalanced_rejected (T : Table) (s : List Char) (o c : Char) (hp : Pair o c)
+    (hne : s.count o ≠ s.count c) (fs : Items Cnt) (d : Option Dens) : parse T s ≠ .ok (fs, d) :=
+  fun h => hne (accepted_balanced T s fs d h o c hp)
+
+/-- **a malformed count, isotope, ion or density tag is rejected**: an accepted string decomposes
+    into well-formed tokens (`Compound.wf`: every count is `[1-9][0-9]*` or
+    `(0|[1-9][0-9]*|)[.][0-9]*` but not a lone `.`, every isotope tag `[ number ]`, every ion tag
+    `{ number? sign }`, the density tag `@count` with `n`/`i`), so a string with no such
+    decomposition is not accepted -/
+theorem malformed_rejected (T : Table) (s : List Char)
+    (hno : ∀ D : Compound, D.wf = true → D.text ≠ s) (fs : Items Cnt) (d : Option Dens) :
+    parse T s ≠ .ok (fs, d) := by
+  intro h
+  obtain ⟨D, hw, ht, _⟩ := Grammar.parse_sound T s fs d h
+  exact hno D hw ht
+
+/-- the fuel of the model is no restriction: any larger fuel gives the same result (success,
+    failure or exception), so `parse` is the fuel-free recursive descent -/
+theorem fuel_is_no_restriction (T : Table) (s : List Char) (n : Nat) (h : fuelFor s ≤ n) :
+    pComposite T n s = pComposite T (fuelFor s) s := pComposite_fuel T s n h
+
+/-- the empty string (or blanks) is the empty formula -/
+theorem parse_blank (T : Table) (b : List Char) (hb : AllWs b) : parse T b = .ok (.nil, none) :=
+  Grammar.parse_blank T b hb
+
+/-- data fact over the regenerated table: every entry is served under its own symbol -/
+theorem genTable_wf : genTable.wf = true := by decide +kernel
+
+/-- data fact: the rows of mass.py's `isotope_mass` name the elements of core.py's `element_base`
+    (same Z, same symbol), so the isotope lists are attached to the right entries -/
+theorem isotope_rows_match_elements :
+    PtGen.isotopeList.all (fun r => PtGen.elementBase.any (fun e => e.1 = r.1 && e.2.2.2.1 = r.2.1)) = true := by
+  decide +kernel
+
+/-! ## non-vacuity: canonical derivations with every feature, and what the theorems say of them -/
+
+def elH2 : Elem := ⟨[], ['H'], none, none, .whole ['2']⟩
+def elO (pre : List Char) : Elem := ⟨pre, ['O'], none, none, .none⟩
+def elO18 : Elem := ⟨[], ['O'], some ⟨[' '], ['1', '8'], []⟩, some ⟨[], ['2'], true, [' ']⟩, .fract [] ['5']⟩
+def elXx : Elem := ⟨[], ['X', 'x'], none, none, .none⟩
+def elFe99 : Elem := ⟨[], ['F', 'e'], some ⟨[], ['9', '9'], []⟩, none, .none⟩
+
+/-- `2H2 O` – one implicit group with a leading count (blanks do not end it) -/
+def water2 : Compound := .full [] (.one (.implicit (.whole ['2']) [elH2, elO [' ']])) none []
+
+/-- `( H2O[ 18]{2- }.5 )3 + 2H2 O@1.5 n` -/
+def mixed : Compound :=
+  .full []
+    (.more (.explicit [] [' '] (.one (.implicit .none [elH2, elO18])) [' '] [] (.whole ['3']))
+      ⟨[' '], true, [' ']⟩ (.one (.implicit (.whole ['2']) [elH2, elO [' ']])))
+    (some ⟨[], .fract ['1'] ['5'], [' '], some true⟩) [' ']
+
+example : water2.canon = true ∧ water2.text = "2H2 O".toList := by decide +kernel
+example : mixed.canon = true ∧ mixed.text = "( H2O[ 18]{2- }.5 )3 + 2H2 O@1.5 n ".toList := by
+  decide +kernel
+example : water2.result genTable =
+    some (.cons ⟨2, 0⟩ (.group (.cons ⟨2, 0⟩ (.atom ⟨1, 0, 0⟩) (.cons ⟨1, 0⟩ (.atom ⟨8, 0, 0⟩) .nil))) .nil, none) := by
+  decide +kernel
+example : (mixed.result genTable).isSome = true := by decide +kernel
+
+/-- the full statement without the side conditions of `canon`: *every* token-well-formed derivation
+    with defined elements parses to what it denotes -/
+def parse_yield_full : Prop :=
+  ∀ (T : Table) (D : Compound) (r : Items Cnt × Option Dens), D.wf = true → D.result T = some r →
+    parse T D.text = .ok r
+
+/-- `6H2O`, a blank, `CaCO3` – two groups, as the guide reads it (known finding D19) -/
+def hydrate : Compound :=
+  .full []
+    (.more (.implicit (.whole ['6']) [elH2, elO []]) ⟨[' '], false, []⟩
+      (.one (.implicit .none [⟨[], ['C', 'a'], none, none, .none⟩, ⟨[], ['C'], none, none, .none⟩,
+        ⟨[], ['O'], none, none, .whole ['3']⟩]))) none []
+
+theorem parse_yield_full_counterexample : ¬ parse_yield_full := by
+  intro h
+  have hw : hydrate.wf = true := by decide +kernel
+  have h1 := h genTable hydrate _ hw (by decide +kernel : hydrate.result genTable = some
+    (.cons ⟨6, 0⟩ (.group (.cons ⟨2, 0⟩ (.atom ⟨1, 0, 0⟩) (.cons ⟨1, 0⟩ (.atom ⟨8, 0, 0⟩) .nil)))
+      (.cons ⟨1, 0⟩ (.atom ⟨20, 0, 0⟩) (.cons ⟨1, 0⟩ (.atom ⟨6, 0, 0⟩) (.cons ⟨3, 0⟩ (.atom ⟨8, 0, 0⟩) .nil))), none))
+  have h2 : parse genTable hydrate.text ≠ .ok
+      (.cons ⟨6, 0⟩ (.group (.cons ⟨2, 0⟩ (.atom ⟨1, 0, 0⟩) (.cons ⟨1, 0⟩ (.atom ⟨8, 0, 0⟩) .nil)))
+      (.cons ⟨1, 0⟩ (.atom ⟨20, 0, 0⟩) (.cons ⟨1, 0⟩ (.atom ⟨6, 0, 0⟩) (.cons ⟨3, 0⟩ (.atom ⟨8, 0, 0⟩) .nil))), none) := by
+    decide +kernel
+  exact h2 h1
+
+/-- the greedy reading, stated rather than hidden: the documented grammar lets a blank separate two
+    groups, but the element loop of the implementation skips blanks, so a leading count also
+    multiplies the blank-separated elements that follow (`6H2O CaCO3` is 6·(H2O CaCO3), while
+    `6H2O+CaCO3` and `CaCO3 6H2O` are hydrated calcium carbonate).  `canon` excludes the
+    two-group derivation of such a string; its one-group derivation is canonical. -/
+example : parse genTable "6H2O CaCO3".toList =
+    .ok (.cons ⟨6, 0⟩ (.group (.cons ⟨2, 0⟩ (.atom ⟨1, 0, 0⟩) (.cons ⟨1, 0⟩ (.atom ⟨8, 0, 0⟩)
+      (.cons ⟨1, 0⟩ (.atom ⟨20, 0, 0⟩) (.cons ⟨1, 0⟩ (.atom ⟨6, 0, 0⟩) (.cons ⟨3, 0⟩ (.atom ⟨8, 0, 0⟩) .nil)))))) .nil,
+      none) := by decide +kernel
+
+/-- an unknown symbol, an undefined isotope: `result = none`, hence rejected by `undefined_rejected` -/
+def badSym : Compound := .full [] (.one (.implicit .none [elH2, elXx])) none []
+def badIso : Compound := .full [] (.one (.explicit [] [] (.one (.implicit .none [elFe99])) [] [] (.whole ['2']))) none []
+example : badSym.canon = true ∧ badSym.text = "H2Xx".toList ∧ badSym.result genTable = none := by decide +kernel
+example : badIso.canon = true ∧ badIso.text = "(Fe[99])2".toList ∧ badIso.result genTable = none := by
+  decide +kernel
+example : parse genTable "H2Xx".toList = .error .abort :=
+  undefined_rejected genTable badSym (by decide +kernel) (by decide +kernel)
+
+/-- the repaired density tag: `H2O@` (D11), `H2O@n`, `H2O@ 1` are rejected, `H2O @1.5 n ` is read -/
+example : parse genTable "H2O@".toList = .error .fail ∧ parse genTable "H2O@n".toList = .error .fail ∧
+    parse genTable "H2O@ 1".toList = .error .fail ∧
+    parse genTable "H2O @1.5 n ".toList =
+      .ok (.cons ⟨2, 0⟩ (.atom ⟨1, 0, 0⟩) (.cons ⟨1, 0⟩ (.atom ⟨8, 0, 0⟩) .nil), some (.nat ⟨15, 1⟩)) := by
+  decide +kernel
+
+/-- one malformation of each kind from the fixed list, on concrete strings -/
+example : parse genTable "H2O)".toList = .error .fail ∧ parse genTable "(H2O".toList = .error .fail ∧
+    parse genTable "O[18".toList = .error .fail ∧ parse genTable "O[018]".toList = .error .fail ∧
+    parse genTable "Fe{2}".toList = .error .fail ∧ parse genTable "Fe{+2}".toList = .error .fail := by
+  decide +kernel
+example : parse genTable "H01".toList = .error .fail ∧ parse genTable "H1e3".toList = .error .fail ∧
+    parse genTable "H.".toList = .error .abort ∧ parse genTable "D[2]".toList = .error .abort ∧
+    parse genTable "Fe{9+}".toList = .error .abort ∧ parse genTable "H[99]".toList = .error .abort := by
+  decide +kernel
+
 end PtVerif.C01
